@@ -18,6 +18,16 @@ CHECKS = {
     ),
 }
 
+CHECKS["C09"] = dict(
+    category="proof",
+    text="Lean 4 theorem C09_compat_sound over the 36-entry table of _is_granularity_compatible regenerated from /repo on every run: every accepted (Q,P) satisfies "
+         "trunc Q (trunc P t) = trunc Q t for EVERY integer timestamp (omega-based proleptic Gregorian calendar, no 28-year window); exact truth table with witnesses "
+         "for the 18 unsound pairs; unknown names only identity. Calendar model validated against DuckDB DATE_TRUNC; accepted pairs executed routed vs unrouted.",
+    design_ref="DESIGN.md §4 C09",
+    note="Trusted: Lean kernel + standard axioms; translator calls the real function on its complete finite domain; the Lean calendar is tied to DuckDB DATE_TRUNC by differential testing on boundary/random timestamps (not proved about DuckDB).",
+    technique="Lean 4 proof over translator-regenerated table (decide + omega calendar lemmas) + DuckDB correspondence",
+)
+
 NOT_APPLICABLE = {}
 
 
